@@ -511,7 +511,13 @@ class WebSocket(object):
         if compress and self.state.compression:
             with self.state.compress_lock:
                 _payload = self.state.compression.compress(data)
-                self.session.send_compressed(Opcode.BINARY, _payload)
+                try:
+                    self.session.send_compressed(Opcode.BINARY, _payload)
+                except errors.WebSocketError:
+                    # The server never saw this message, the next one
+                    # must not refer back to it
+                    self.state.compression.reset_compressor()
+                    raise
         else:
             self.session.send(Opcode.BINARY, data)
 
@@ -556,7 +562,13 @@ class WebSocket(object):
         if compress and self.state.compression:
             with self.state.compress_lock:
                 _payload = self.state.compression.compress(payload)
-                self.session.send_compressed(Opcode.TEXT, _payload)
+                try:
+                    self.session.send_compressed(Opcode.TEXT, _payload)
+                except errors.WebSocketError:
+                    # The server never saw this message, the next one
+                    # must not refer back to it
+                    self.state.compression.reset_compressor()
+                    raise
         else:
             self.session.send(Opcode.TEXT, payload)
 
